@@ -5,6 +5,7 @@ import (
 	"go/ast"
 	"go/constant"
 	"go/types"
+	"regexp"
 	"sort"
 	"strings"
 
@@ -1102,6 +1103,50 @@ func c19cachedAnswersAreAuthorised(c *an.Ctx) {
 	}
 	off := f.EdgesImplyingAny(an.AtomLike(`^recv\.Config\.AuthEnabled$`, false), an.AtomLike(`^nil==p2$`, true),
 		an.AtomLike(`^p2\.AuthorizeDatabase\(`, true))
+	// … or the nil result of a helper of the package that returns nil only where one of these holds
+	// (the guard extracted into `authorizeX(user, db) *apiError`)
+	ast.Inspect(f.Body, func(m ast.Node) bool {
+		ce, ok := m.(*ast.CallExpr)
+		if !ok {
+			return true
+		}
+		cal := an.Callee(f.Info, ce)
+		if cal == nil || cal.Pkg() != f.Pkg.Types {
+			return true
+		}
+		src := c.P.Src(cal)
+		if src == nil || src.Decl.Body == nil || src.Obj.Type().(*types.Signature).Results().Len() != 1 {
+			return true
+		}
+		hf := c.P.Fn(src)
+		if hf == nil || hf.Find(an.MCallNamed("AuthorizeDatabase", `.*`)).Len() == 0 {
+			return true
+		}
+		offH := hf.EdgesImplyingAny(an.AtomLike(`^recv\.Config\.AuthEnabled$`, false), an.AtomLike(`^nil==p\d$`, true), an.AtomLike(`^p\d\.AuthorizeDatabase\(`, true))
+		nilRets := hf.Find(an.MReturn("return nil", func(g *an.Fn, rs *ast.ReturnStmt) bool {
+			return len(rs.Results) == 1 && an.IsNilIdent(g.Info, rs.Results[0])
+		}))
+		if nilRets.Len() == 0 {
+			return true
+		}
+		for _, nr := range nilRets.List {
+			if hf.FPath([]int{hf.G.Entry}, nr.V, nil, offH) != nil {
+				return true // nil is also returned without an authorisation: not a guard
+			}
+		}
+		for e := range f.EdgesImplyingAny(an.AtomLike(`^nil==.*\b`+regexp.QuoteMeta(cal.Name())+`\(`, true)) {
+			off[e] = true
+		}
+		// the result held in a local: `if apiErr := h.authorizeX(…); apiErr != nil`
+		if as, ok := f.Parent(ce).(*ast.AssignStmt); ok && len(as.Lhs) == 1 {
+			if id, ok := as.Lhs[0].(*ast.Ident); ok {
+				for e := range f.EdgesImplyingAny(an.AtomLike(`^nil==local\(`+regexp.QuoteMeta(id.Name)+`\)$`, true)) {
+					off[e] = true
+				}
+			}
+		}
+		return true
+	})
 	// an authorisation call inside a condition guards its true/false edges: the vertex itself is the cut
 	for _, s := range wr.List {
 		if p := f.FPath([]int{f.G.Entry}, s.V, authz.Vs(), off); p != nil {
